@@ -150,11 +150,38 @@ impl Prop for C02 {
             };
             (ms, pf)
         };
+        // scale (one case per 65536): one padding machine brought to more than 2^24 reported packets with its own
+        // fraction (or the framework's) right at the limit, in 16 calls of 2^20 events, then an obedient walk along
+        // the limit one event at a time
+        let long = cx.case % 65536 == 1;
+        let (num, den) = *r.pick(&[(3u64, 10u64), (1, 5), (3, 5), (1, 3), (2, 7), (3, 10)]);
+        let own = r.chance(1, 2);
+        let (machines, pf) = if long {
+            out.bump("long_histories_(more_than_2^24_packets_reported)");
+            let f = num as f64 / den as f64;
+            (vec![walker(if own { f } else { 0.0 })], if own { 0.0 } else { f })
+        } else {
+            (machines, pf)
+        };
+        let script = move |i: usize, last: &[crate::drive::Act]| -> Vec<TriggerEvent> {
+            if i < 16 {
+                // num padding packets in every den packets
+                (0..1u64 << 20)
+                    .map(|k| if k % den < num { TriggerEvent::PaddingSent { machine: MachineId::from_raw(0) } } else { TriggerEvent::NormalSent })
+                    .collect()
+            } else if i == 16 {
+                vec![TriggerEvent::TunnelRecv]
+            } else if last.iter().any(|a| a.kind == 1) {
+                vec![TriggerEvent::PaddingSent { machine: MachineId::from_raw(0) }]
+            } else {
+                vec![TriggerEvent::NormalSent]
+            }
+        };
         let bf = *r.pick(&[0.0, 0.0, 0.5]);
         let rng_seed = rand_core::RngCore::next_u64(&mut r);
         let start = VClock(1 << 30);
         let h = HCfg {
-            calls: r.range(10, 250) as usize,
+            calls: if long { 17 + 4000 } else { r.range(10, 250) as usize },
             max_batch: 1,
             empty: false,
             backwards: true,
@@ -180,7 +207,8 @@ impl Prop for C02 {
             rng: ScriptRng::fair(rng_seed),
             h,
             max_time: 1 << 50,
-            extra16: 8,
+            extra16: if long { 0 } else { 8 },
+            script: if long { Some(&script) } else { None },
         };
         // boundary walks: mostly NormalSent and PaddingSent so that fractions are actually reached
         let res = run_scenario(sc, &mut r, &mut mon, out, |r, _| {
@@ -210,6 +238,20 @@ impl Prop for C02 {
             Err((sig, msg, trace)) => out.violation(sig, msg, witness(&machines, pf, bf, rng_seed, start, &trace)),
         }
     }
+}
+
+/// Once woken up, asks for padding again after every packet it sends or sees sent; budget 100.
+fn walker(own_frac: f64) -> Machine {
+    use enum_map::enum_map;
+    use maybenot::action::Action;
+    use maybenot::event::Event;
+    use maybenot::state::{State, Trans};
+    // state 0 waits (the bulk of the history is reported while the machine is silent: a call with many events is
+    // judged by C05, not here); TunnelRecv wakes it up
+    let s0 = State::new(enum_map! { Event::TunnelRecv => vec![Trans(1, 1.0)], _ => vec![] });
+    let mut s = State::new(enum_map! { Event::PaddingSent | Event::NormalSent => vec![Trans(1, 1.0)], _ => vec![] });
+    s.action = Some(Action::SendPadding { bypass: false, replace: false, timeout: crate::gen::constant(1.0), limit: None });
+    Machine::new(100, own_frac, 0, 0.0, vec![s0, s]).unwrap()
 }
 
 /// Directed shapes: a machine with no packets of its own next to one that pads (the shape of the
